@@ -1435,11 +1435,12 @@ class FuncEval(ValueFunc):
         s = args.getString("s").value
         try:
             node = parse_script(s, pos.filename)
-            return node.evaluate(environment)
         except Exception:
             raise CklRuntimeError(
                 ValueString("ERROR"), "Cannot evaluate expression", pos
             )
+        # an error raised by the evaluated code keeps its own value
+        return node.evaluate(environment)
 
 
 class FuncExecute(ValueFunc):
